@@ -68,13 +68,15 @@ def roseAspect : Nat → TState → Nat → Rose FLabel
     | some x => .node (.aspect a) (x.calls.map (roseFrame fuel st))
 end
 
+/-- the precompile addresses active from Istanbul on, Artela's three included (`vm.ActivePrecompiles(rules)` for those
+    rules; the flat tracer takes the list for the block's rules at `CaptureStart`, so it is a parameter below) -/
 def isPrecompileAddr (a : Nat) : Bool := (1 ≤ a && a ≤ 9) || (0x64 ≤ a && a ≤ 0x66)
 
 /-- `flatCallTracer.CaptureExit` (call_flat.go) after the inner tracer's `CaptureExit` has run, without `includePrecompiles`:
     a CALL / STATICCALL to a precompile that was issued by an EVM frame (not by a running Aspect) is removed from its parent's
     `Calls` again (Parity traces do not list them).  `before` / `after` are the inner tracer's states around its own step.
     `panic` = the Go code indexes `parent.Calls[len-1]` of an empty list. -/
-def flatAfterInnerExit (before after : TState) : Res TState :=
+def flatAfterInnerExit (before after : TState) (isPre : Nat → Bool := isPrecompileAddr) : Res TState :=
   if before.onlyTop then .ok after else
   match before.stack, after.stack with
   | _ :: _ :: _, p :: _ =>
@@ -88,7 +90,7 @@ def flatAfterInnerExit (before after : TState) : Res TState :=
         match after.frames[last]? with
         | none => .ok after
         | some lf =>
-          if (lf.typ == "CALL" || lf.typ == "STATICCALL") && isPrecompileAddr (lf.to.getD 0) then
+          if (lf.typ == "CALL" || lf.typ == "STATICCALL") && isPre (lf.to.getD 0) then
             .ok { after with frames := after.frames.modify p (fun f => { f with calls := f.calls.dropLast }) }
           else .ok after
   | [_], _ =>
